@@ -130,9 +130,16 @@ def latencies(ctx):
             if not ob.need(len(ds) == 1, "bank %s driver not found" % sig):
                 continue
             n, src = depth(ds[0].value)
-            ob.instance("bank.%s pipeline" % sig, {"stages": key(n), "source": key(src)})
-            if not lin_eq(n, Sym("settings.write_latency")):
-                ob.refute("write-latency:%s" % sig, "bank.%s is delayed by %s cycles, the PHY settings advertise write_latency" % (sig, key(n)), ds[0].loc)
+            # register-stage profile from the DFI phase signals to the bank input: every path must have write_latency stages (one pipeline per bank, or one shared
+            # pipeline with the bank selected after the delay)
+            prof = stage_profile(v, ds[0].value, stop=lambda k_: ".phases[" in k_ or k_.startswith("dfi.") or "phase" in k_.split(".")[0])
+            if not ob.need(prof is not None and len(prof) > 0, "bank.%s: register-stage profile not computable" % sig):
+                continue
+            ob.instance("bank.%s pipeline" % sig, {"stages": sorted({key(n0) for _, n0 in prof}), "sources": sorted({s0 for s0, _ in prof})[:6]})
+            wrong = sorted((s0, key(n0)) for s0, n0 in prof if not lin_eq(n0, Sym("settings.write_latency")))
+            if wrong:
+                ob.refute("write-latency:%s" % sig, "bank.%s is reached from %s after %s register stages, the PHY settings advertise write_latency" % (sig, wrong[0][0], wrong[0][1]),
+                          ds[0].loc)
     outs = [l for l in v.leaves if l.inst == "" and l.kind == "assign" and isinstance(l.target, Op) and l.target.op == "Cat"]
     found = {}
     for l in outs:
